@@ -208,7 +208,16 @@ type Transport struct {
 	hook   func()
 	after  func() // one-shot, runs after the write that completes the next framed packet
 	mark   int    // offset in out at which that packet starts
+	failW  bool   // one-shot: the next Write fails (see FailNextWrite)
 }
+
+// ErrWriteFailed is what a Write armed with FailNextWrite returns.
+var ErrWriteFailed = errors.New("srvkit: injected write failure (broken pipe)")
+
+// FailNextWrite arms a one-shot fault: the next Write on this transport returns an error and writes nothing -
+// a socket whose send side broke while the transport itself is still open (the packet being written,
+// e.g. a handshake response, is not delivered).
+func (t *Transport) FailNextWrite() { t.mu.Lock(); t.failW = true; t.mu.Unlock() }
 
 // AfterNextPacket arms a one-shot hook that runs (on the writer's goroutine, outside the
 // transport's lock) right after the Write call that completes the next framed packet with a body
@@ -242,6 +251,11 @@ func (t *Transport) Write(p []byte) (int, error) {
 	if t.closed {
 		t.mu.Unlock()
 		return 0, net.ErrClosed
+	}
+	if t.failW {
+		t.failW = false
+		t.mu.Unlock()
+		return 0, ErrWriteFailed
 	}
 	t.nWrite++
 	n, err := t.out.Write(p)
